@@ -21,6 +21,7 @@
 (* violation by itself).                                                   *)
 (***************************************************************************)
 EXTENDS AnsiOps
+LOCAL SX == INSTANCE SequencesExt
 
 Pt(a, r) == [add |-> a, rem |-> r]
 EmptyPt == Pt(<< >>, << >>)
@@ -33,6 +34,9 @@ SortedSeq(S) == IF S = {} THEN << >>
 \* application), and closures nested by a loop of table updates made one replace() of 24 matches take minutes.
 \* f @@ g (TLC module, evaluated in Java) yields an explicit function; the left operand wins on shared keys.
 Strict(f) == f @@ << >>
+\* ... and a sequence written [i \in 1..n |-> e] is a closure too (every s[i] re-evaluates e): s \o << >> is a tuple of values.
+\* A closure whose body mentions the previous table twice, applied once per loop iteration, doubled the work per iteration.
+StrictSeq(s) == s \o << >>
 WithKey(f, k) == IF k \in DOMAIN f THEN f ELSE (k :> EmptyPt) @@ f
 SetPt(f, k, p) == (k :> p) @@ f
 DropKey(f, k) == Strict([x \in DOMAIN f \ {k} |-> f[x]])
@@ -73,7 +77,7 @@ SettingsAt(n, f, idx) ==
        IN IF ok = {} THEN << >> ELSE it[CHOOSE j \in ok : \A q \in ok : q <= j][2]
 
 \* refinement mapping to the abstract value
-AbsVal(k, t, f) == [k |-> k, t |-> t, s |-> [i \in DOMAIN t |-> SettingsAt(Len(t), f, i - 1)],
+AbsVal(k, t, f) == [k |-> k, t |-> t, s |-> StrictSeq([i \in DOMAIN t |-> SettingsAt(Len(t), f, i - 1)]),
                     p |-> << >>, q |-> << >>, b |-> 0]
 
 \* the library's consistency: the self-check never fails, no key past the end, nothing active at the end
@@ -255,8 +259,8 @@ CanonWalk(f, ks, j, seen) ==       \* seen: sequence of instance ids in order of
 CanonTab(f) ==
   LET order == CanonWalk(f, SortedSeq(DOMAIN f), 1, << >>)
       CanonNo(x) == CHOOSE q \in DOMAIN order : order[q] = x
-  IN [k \in DOMAIN f |-> Pt([i \in DOMAIN f[k].add |-> <<CanonNo(f[k].add[i][1]), f[k].add[i][2]>>],
-                            [i \in DOMAIN f[k].rem |-> <<CanonNo(f[k].rem[i][1]), f[k].rem[i][2]>>])]
+  IN Strict([k \in DOMAIN f |-> Pt(StrictSeq([i \in DOMAIN f[k].add |-> <<CanonNo(f[k].add[i][1]), f[k].add[i][2]>>]),
+                                   StrictSeq([i \in DOMAIN f[k].rem |-> <<CanonNo(f[k].rem[i][1]), f[k].rem[i][2]>>]))])
 SameTab(f, g) == CanonTab(f) = CanonTab(g)
 
 \* the incoming settings objects are cloned (fresh identities above mine, numbered compactly in order of first
@@ -267,8 +271,8 @@ MaxInst(f) == LET S == UNION {{f[k].add[i][1] : i \in DOMAIN f[k].add} \cup {f[k
 RenameTab(g, base) ==
   LET order == CanonWalk(g, SortedSeq(DOMAIN g), 1, << >>)
       No(x) == base + (CHOOSE q \in DOMAIN order : order[q] = x)
-  IN Strict([k \in DOMAIN g |-> Pt([i \in DOMAIN g[k].add |-> <<No(g[k].add[i][1]), g[k].add[i][2]>>],
-                                   [i \in DOMAIN g[k].rem |-> <<No(g[k].rem[i][1]), g[k].rem[i][2]>>])])
+  IN Strict([k \in DOMAIN g |-> Pt(StrictSeq([i \in DOMAIN g[k].add |-> <<No(g[k].add[i][1]), g[k].add[i][2]>>]),
+                                   StrictSeq([i \in DOMAIN g[k].rem |-> <<No(g[k].rem[i][1]), g[k].rem[i][2]>>]))])
 CPIAdd(t, f, u, g) ==
   LET g2 == RenameTab(g, MaxInst(f))
   IN << t \o u, IaLoop(f, g2, SortedSeq(DOMAIN g2), 1, Len(t), << >>, << >>) >>
@@ -305,7 +309,7 @@ LibIsReset(tid) == ParamList(TextTable[tid]).ps[1] = 0
 
 DictHas(d, g) == \E k \in DOMAIN d : d[k][1] = g
 DictGet(d, g) == d[CHOOSE k \in DOMAIN d : d[k][1] = g][2]
-DictSet(d, g, t) == IF DictHas(d, g) THEN [k \in DOMAIN d |-> IF d[k][1] = g THEN <<g, t>> ELSE d[k]] ELSE d \o << <<g, t>> >>
+DictSet(d, g, t) == IF DictHas(d, g) THEN StrictSeq([k \in DOMAIN d |-> IF d[k][1] = g THEN <<g, t>> ELSE d[k]]) ELSE d \o << <<g, t>> >>
 DictDel(d, g) == SelectSeq(d, LAMBDA e : e[1] # g)
 
 \* settings_to_dict(settings) for parsable settings
@@ -360,11 +364,16 @@ CPRender(t, f, fl) ==
 (* first character of the match) (fresh objects); otherwise the            *)
 (* replacement value <<newT, newF>> itself (AnsiStr: a copy).              *)
 (***************************************************************************)
-FreshCopies(L, base) == [i \in DOMAIN L |-> <<base + i, L[i][2]>>]
+FreshCopies(L, base) == StrictSeq([i \in DOMAIN L |-> <<base + i, L[i][2]>>])
 
-RECURSIVE ReplLoop(_, _, _, _, _, _, _, _, _)
-ReplLoop(t, f, old, newKind, newT, newF, left, idx, base) ==
-  IF left = 0 \/ idx < 0 THEN <<t, f>>
+\* The loop of replace() is written as a FOLD over a step counter (FoldLeft is evaluated in Java, flat) rather than as
+\* a recursive operator: TLC evaluates a callee in the caller's context extended by the parameters, so along a
+\* recursion that rebuilds text and table at every level the evaluation time roughly doubled per match (a replace()
+\* of 26 matches took minutes).  A step on a finished state returns it unchanged.
+\* loop state: <<text, table, matches left (-1 = all), index of the next match (-1 = none), next fresh identity>>
+ReplStep(old, newKind, newT, newF, st) ==
+  LET t == st[1] f == st[2] left == st[3] idx == st[4] base == st[5] IN
+  IF left = 0 \/ idx < 0 THEN st
   ELSE
     LET n == Len(t)
         cur == SettingsAt(n, f, idx)
@@ -377,10 +386,12 @@ ReplLoop(t, f, old, newKind, newT, newF, left, idx, base) ==
         b == CPIAdd(a[1], a[2], tail[1], tail[2])
         from == idx + Len(newT) + (IF old = << >> THEN 1 ELSE 0)
         nidx == IF from > Len(b[1]) THEN -1 ELSE Find(b[1], old, from, Len(b[1]))
-    IN ReplLoop(b[1], b[2], old, newKind, newT, newF, IF left > 0 THEN left - 1 ELSE left, nidx, MaxInst(b[2]) + 1)
+    IN <<b[1], b[2], IF left > 0 THEN left - 1 ELSE left, nidx, MaxInst(b[2]) + 1>>
 
 CPReplace(t, f, old, newKind, newT, newF, count) ==
-  ReplLoop(t, f, old, newKind, newT, newF, count, Find(t, old, 0, Len(t)), MaxInst(f) + MaxInst(newF) + 1)
+  LET Step(st, i) == ReplStep(old, newKind, newT, newF, st)
+      fin == SX!FoldLeft(Step, <<t, f, count, Find(t, old, 0, Len(t)), MaxInst(f) + MaxInst(newF) + 1>>, [i \in 1..(Len(t) + 1) |-> i])
+  IN <<fin[1], fin[2]>>
 
 ---------------------------------------------------------------------------
 (***************************************************************************)
@@ -421,7 +432,7 @@ CPPgs(body) == IF body = << >> THEN << <<0>> >> ELSE PgsLoop(BodyItems(body), 1,
 \* the effect dictionary: ordered << <<group, params>> >>
 PDictHas(d, g) == \E k \in DOMAIN d : d[k][1] = g
 PDictGet(d, g) == d[CHOOSE k \in DOMAIN d : d[k][1] = g][2]
-PDictSet(d, g, ps) == IF PDictHas(d, g) THEN [k \in DOMAIN d |-> IF d[k][1] = g THEN <<g, ps>> ELSE d[k]] ELSE d \o << <<g, ps>> >>
+PDictSet(d, g, ps) == IF PDictHas(d, g) THEN StrictSeq([k \in DOMAIN d |-> IF d[k][1] = g THEN <<g, ps>> ELSE d[k]]) ELSE d \o << <<g, ps>> >>
 LibGroupOfPs(ps) == IF ps[1] = 0 THEN "reset" ELSE GroupOf(ps[1])
 RECURSIVE PToDict(_, _, _)
 PToDict(sets, i, d) ==
@@ -459,7 +470,7 @@ SasLoop(t, f, seqs, j, cur, base) ==       \* seqs: << <<pos, body, term>> ... >
           gone == SelectSeq(cur, LAMBDA e : ~PDictHas(new, e[1]))
           remTids == {TidOfPs(PDictGet(cur, replaced[k][1])) : k \in DOMAIN replaced} \cup {TidOfPs(gone[k][2]) : k \in DOMAIN gone}
           f1 == IF remTids = {} THEN f ELSE CPRemove(t, f, FALSE, remTids, <<key>>, << >>)
-          fresh == [k \in DOMAIN changed |-> <<base + k, TidOfPs(changed[k][2])>>]
+          fresh == StrictSeq([k \in DOMAIN changed |-> <<base + k, TidOfPs(changed[k][2])>>])
           f2 == IF changed = << >> THEN f1 ELSE CPApply(t, f1, fresh, <<key>>, << >>, TRUE)
       IN SasLoop(t, f2, seqs, j + 1, new, base + Len(changed) + 1)
 
